@@ -13,7 +13,7 @@ resolved path.  Demanded (property (c), and (a) for the files reached through (c
     the spelled root, below the resolved root) gives its dotted name, which locates that origin;
   * name -> file -> name: the file located for a name, entered the way `parse_and_analyse_imports`
     enters a followed import (`enter_file(spec.origin)`) and the way `Context.expand_starred_imports`
-    enters a star-imported module (`enter_file(Import.origin)`), gets that name back, and a relative
+    enters a star-imported module (the expression is taken from its source), gets that name back, and a relative
     import inside it resolves as `importlib.util.resolve_name` resolves it for the package the file
     was imported as.
 
@@ -340,6 +340,16 @@ def found_json(H, world, res, roots):
     return {"module": None if name is None else name.split("."), "spec": spec_json(H, world, spec, roots)}
 
 
+_STAR_EXPR = []
+
+
+def _star_enter_expr():
+    if not _STAR_EXPR:
+        from tables import t_c13
+        _STAR_EXPR.append(t_c13.star_enter_expression())
+    return _STAR_EXPR[0]
+
+
 def run_impl_op(H, world, root, o, roots):
     # the file-system-dependent caches (pure functions of the layout) were dropped when the layout was
     # built; the memo of derive_absolute_module_name is dropped before every op
@@ -369,11 +379,14 @@ def run_impl_op(H, world, root, o, roots):
         if s is None or s.origin is None:
             return out
         # parse_and_analyse_imports: `with enter_file(spec.origin)`;
-        # Context.expand_starred_imports: `with enter_file(starred.origin)` (an Import's origin)
+        # Context.expand_starred_imports: `with enter_file(<expr>)` around compile_root_context — <expr> is
+        # read from the source of the code under test (Tie A pins its text) and evaluated here, not imitated
         if o["star"]:
             with enter_file(Path("target.py")):     # the symbol is made while the importing file is current
                 starred = Import("*", name)
-            entered = starred.origin
+            expr = _star_enter_expr()
+            # no block of the source enters anything around the compile: the importing file stays current
+            entered = Path("target.py") if expr is None else eval(expr, {"Path": Path, "starred": starred})  # noqa: S307
         else:
             entered = s.origin
         target = None if o["target"] is None else ".".join(o["target"])
@@ -486,8 +499,10 @@ def judge_follow(H, roots, o, im, mo, case, res):
     linked = behind_link(roots, m)
     res.count("links-follow-file:" + ("behind-link" if linked else "plain"))
     if im["base"] != name:
-        if o["star"] and linked:
-            # KNOWN (C13_cex_star_symlink): the star-expansion enters Import.origin, the fully resolved path
+        if o["star"] and linked and im["entered"] == os.path.realpath(expect_abs):
+            # exactly the rule before 58a9012: the file was entered under the fully resolved origin
+            # FIXED in 58a9012 (C13_cex_star_symlink_before_58a9012): the star-expansion entered
+            # Import.origin, the fully resolved path
             viol(SIG_STAR, python=py, expected_base=name)
         else:
             viol(SIG_FOLLOW_NONAME if im["base"] is None else SIG_FOLLOW_WRONG, python=py, expected_base=name)
